@@ -34,7 +34,9 @@ def _run(args):
         out = fn(_W, payload)
         out["_wall"] = time.time() - t
         return out
-    except Exception as e:
+    except (KeyboardInterrupt, SystemExit):
+        raise
+    except BaseException as e:
         return {"infra_error": traceback.format_exc()[-2000:], "payload": payload}
 
 class Pool:
